@@ -14,7 +14,8 @@ RULE = ('parsing: every unit {none,b,k,kb,kib,m,mb,mib,g,gb,gib,t,tb,tib} x ever
         'n*mult, n*mult+1; formatting: every specifier of the grammar precision {none,%.0..%.3} x {space,none} x every '
         'subset of {c,d,s} x unit {none,b,k,kb,kib,..,tb,tib} x a logarithmic size grid with +-1 neighbours, checked '
         'against the documented example table, the unit/base/precision grammar, half-unit accuracy, monotonicity and '
-        'round trip; fsize under several default_file_size_format settings, also for zip members; every ordered pair of 18 specifiers in one query')
+        'round trip; fsize under several default_file_size_format settings, also for zip members; every ordered pair of 18 specifiers in one query'
+        ' plus a list of literals with fractional (3.0b, 0.3k), signed (-1k), over-long (16+ fraction digits, 21+ integer digits) and saturating values, and literals as operands of arithmetic (0.3k * 10), x six operators x both operand orders, compared exactly against 24 file sizes')
 ASSUMPTIONS = ['the unit x number grid uses whole byte counts; a separate list of literals with fractional, signed, over-long and saturating values is compared exactly (fraction digits beyond the 18th are zeros)',
                'a fixed unit without explicit precision is checked for accuracy/monotonicity only (default precision undocumented)',
                'integral quotients may be printed without decimals', 'the displayed quotient is a double: an error of one rounding (2^-52 relative) on top of the displayed precision is accepted']
